@@ -106,7 +106,7 @@ fn mutate_lines(t: &mut Tape, text: &str, labels: &mut Vec<&'static str>) -> Str
                 labels.push("mut:truncate-line");
             }
             _ => {
-                lines.insert(i, (*t.pick(&["[HitObjects]", "[TimingPoints]", "[Difficulty]", "[General]", "[Events]", "[Nonsense]", "osu file format v9", "// c", ""])).to_string());
+                lines.insert(i, (*t.pick(&["[HitObjects]", "[TimingPoints]", "[Difficulty]", "[General]", "[Events]", "[Nonsense]", "osu file format v9", "// c", "", "[Editor]", "[Metadata]", "[Colours]", "[Variables]", "[CatchTheBeat]", "[Mania]", "[hitobjects]", "[HitObjects] ", "osu file format v128", "osu file format v3"])).to_string());
                 labels.push("mut:insert-header");
             }
         }
@@ -477,6 +477,52 @@ fn case_sorters(t: &mut Tape, info: &mut CaseInfo) -> Result<(), String> {
         return Err(format!("osu_legacy output is not a permutation of its input for keys {keys:?}"));
     }
     info.comparisons += 1;
+    // the C# introsort port (unstable): sorted permutation of its input, on random keys with ties and on a
+    // "killer" order built by McIlroy's adversary against this very implementation (drives the quicksort
+    // phase to its depth limit, so the heap-sort fallback runs)
+    {
+        use rosu_pp::__verif::csharp;
+        let check = |name: &str, input: &[i64]| -> Result<(), String> {
+            let mut v = input.to_vec();
+            csharp(&mut v, |a, b| a.cmp(b));
+            let mut exp = input.to_vec();
+            exp.sort_unstable();
+            if v != exp {
+                return Err(format!("csharp::sort ({name}, {} keys) is not the sorted permutation of its input: {:?}...", input.len(), &input[..input.len().min(40)]));
+            }
+            Ok(())
+        };
+        let wide: Vec<i64> = keys.iter().enumerate().map(|(i, k)| i64::from(*k) * if i % 3 == 0 { 1 } else { 7 }).collect();
+        check("random keys with ties", &wide)?;
+        let m = match t.weighted(&[4, 2, 1]) {
+            0 => t.range(17, 120) as usize,
+            1 => t.range(120, 600) as usize,
+            _ => t.range(600, 3000) as usize,
+        };
+        let gas = i64::MAX;
+        let val = std::cell::RefCell::new(vec![gas; m]);
+        let nsolid = std::cell::Cell::new(0i64);
+        let candidate = std::cell::Cell::new(0usize);
+        let mut items: Vec<usize> = (0..m).collect();
+        csharp(&mut items, |x: &usize, y: &usize| {
+            let mut val = val.borrow_mut();
+            if val[*x] == gas && val[*y] == gas {
+                let freeze = if *x == candidate.get() { *x } else { *y };
+                val[freeze] = nsolid.get();
+                nsolid.set(nsolid.get() + 1);
+            }
+            if val[*x] == gas {
+                candidate.set(*x);
+            } else if val[*y] == gas {
+                candidate.set(*y);
+            }
+            val[*x].cmp(&val[*y])
+        });
+        let killer: Vec<i64> = val.borrow().iter().map(|v| if *v == gas { nsolid.get() } else { *v }).collect();
+        check("adversarial order", &killer)?;
+        info.label_if(m >= 600, "killer>=600");
+        info.comparisons += 2;
+    }
     if info.want_sample {
         info.sample = Some(json!({"keys": keys}));
     }
@@ -509,7 +555,7 @@ pub fn property() -> Property {
             },
             SubCheck {
                 name: "sorters-vs-reference",
-                rule: "through the verif hook: TandemSorter::new_stable + sort on two parallel vectors (0-80 keys from a 12-value alphabet, so ties are frequent) equals std stable sort_by on the zipped pairs; osu_legacy applied to an already time-sorted list with equal-time groups (its callers' precondition) yields a sorted permutation of its input. Non-trivial: >=3 keys, not already sorted.",
+                rule: "through the verif hook: TandemSorter::new_stable + sort on two parallel vectors (0-80 keys from a 12-value alphabet, so ties are frequent) equals std stable sort_by on the zipped pairs; osu_legacy applied to an already time-sorted list with equal-time groups (its callers' precondition) yields a sorted permutation of its input; csharp::sort (introsort port) on the keys and on a 17-3000 element killer order built by McIlroy's adversary against the implementation itself (forces the heap-sort fallback) yields the sorted permutation. Non-trivial: >=3 keys, not already sorted.",
                 quick: 30_000,
                 thorough: 400_000,
                 tape_len: 100,
